@@ -48,6 +48,8 @@ type result struct {
 	c       replayCase
 	bc      *ugo.Bytecode
 	want    run.Outcome
+
+	optRefused bool
 }
 
 const vmTimeout = 2 * time.Second
@@ -68,6 +70,11 @@ func decodeSafe(data []byte, mm *ugo.ModuleMap) (bc *ugo.Bytecode, err error, pa
 	}()
 	bc, err = encoder.DecodeBytecodeFrom(bytes.NewReader(data), mm)
 	return
+}
+
+func isOptimizerErr(err error) bool {
+	tn := fmt.Sprintf("%T", err)
+	return strings.Contains(tn, "OptimizerError") || strings.Contains(tn, "multipleErr") || strings.Contains(err.Error(), "Optimizer Error")
 }
 
 func fullDiff(got, want run.Outcome) (d string, traceOnly bool) {
@@ -110,17 +117,17 @@ func judge(c prog.Case, args []ugo.Object, globals ugo.Map, noopt bool) (r resul
 		}
 		return prog.ModuleMap(c.Modules, nil)
 	}
-	opts := ugo.CompilerOptions{NoOptimize: noopt, ModuleMap: mods()}
-	bc, cerr, pan := run.Compile(c.Src, opts)
+	bc, cerr, pan := run.Compile(c.Src, ugo.CompilerOptions{NoOptimize: noopt, ModuleMap: mods()})
+	if pan == "" && cerr != nil && !noopt && isOptimizerErr(cerr) {
+		// the optimizer refuses the script (constant sub-expression that raises; C01's domain): use it unoptimized
+		noopt, r.c.NoOptimize, r.optRefused = true, true, true
+		bc, cerr, pan = run.Compile(c.Src, ugo.CompilerOptions{NoOptimize: true, ModuleMap: mods()})
+	}
 	if pan != "" {
 		r.excl = "compile-panic(C05)"
 		return
 	}
 	if cerr != nil {
-		if strings.Contains(fmt.Sprintf("%T", cerr), "ptimizer") || strings.Contains(fmt.Sprintf("%T", cerr), "multipleErr") || strings.Contains(cerr.Error(), "Optimizer Error") {
-			r.excl = "optimizer-refused(C01)"
-			return
-		}
 		r.harness = fmt.Sprintf("generated program does not compile: %v", cerr)
 		return
 	}
@@ -242,6 +249,10 @@ func TestCheck(t *testing.T) {
 	if tablesErr != "" {
 		t.Fatalf("HARNESS: %s", tablesErr)
 	}
+	if os.Getenv("VERIF_SHRINKTIME") == "" {
+		// every mis-converted loop costs a watchdog period while shrinking
+		os.Setenv("VERIF_SHRINKTIME", "10s")
+	}
 	runReplays(t, rec)
 	if ev.ReplayOnly() {
 		return
@@ -332,6 +343,9 @@ func classify(rec *ev.Rec, gp *gen.GenProgram, p *prog.P, r result) {
 		rec.Class("jumps:5-19")
 	default:
 		rec.Class("jumps:20+")
+	}
+	if r.optRefused {
+		rec.Class("optimizer-refused-compiled-unoptimized")
 	}
 	if r.c.NoOptimize {
 		rec.Class("optimizer-off")
